@@ -3,6 +3,7 @@ package renderb
 import (
 	"encoding/json"
 	"fmt"
+	"runtime"
 	"sort"
 	"strings"
 	"sync/atomic"
@@ -15,152 +16,11 @@ import (
 	"verif/h/u"
 )
 
-// ---- payloads ------------------------------------------------------------------------------------
-
-const c30Marker = "zqj"
-
-// every payload contains the marker followed by two letters (unique per payload).
-var c30Meta = []string{
-	"<zqjab>",
-	"</text><zqjac/>",
-	"\"zqjad",
-	"'zqjae",
-	"&zqjaf",
-	"&amp;zqjag",
-	"&zqjah;",
-	"]]>zqjai",
-	"]]><zqjaj/>",
-	"-->zqjak",
-	"<!--zqjal",
-	"<![CDATA[zqjam",
-	"<?zqjan?>",
-	"<script>zqjao</script>",
-	"\" onload=\"zqjap",
-	"' onload='zqjaq",
-	"\"><zqjar x=\"",
-	"'><zqjas x='",
-	"javascript:zqjat",
-	"%22%3E%3Czqjau%3E",
-	"\\\"zqjav",
-	"zqjaw\\",
-}
-
-// payloads for the option-pair phase at quick tier.
-var c30Core = []string{"<zqjab>", "&zqjah;", "]]><zqjaj/>", "\" onload=\"zqjap", "'><zqjas x='", "\x01zqjcb"}
-
-func c30Control() []string {
-	var out []string
-	for c := 0; c < 0x20; c++ {
-		out = append(out, fmt.Sprintf("%czqjc%c", rune(c), rune('a'+c%26)))
-	}
-	out = append(out,
-		"\x7fzqjda", "\u0085zqjdb", "\u2028zqjdc", "\ufffezqjdd", "\uffffzqjde", "\xed\xa0\x80zqjdf", "\xffzqjdg", "\ufeffzqjdh",
-	)
-	return out
-}
-
-// benign strings used to collect the renderer's own vocabulary for a site.
-var c30Benign = []string{"zqjba", "zqj bb\nzqjbc zqjbd"}
-
-// ---- injection sites -----------------------------------------------------------------------------
-
-type c30Site struct {
-	Name string
-	// Src builds the D2 text; q is the payload as a D2 double-quoted string, raw the payload itself.
-	Src func(q, raw string) string
-	// WFOnly: markup produced from the string is intended (markdown); only well-formedness is checked.
-	WFOnly bool
-	// Multi: render every board.
-	Multi bool
-}
-
-func gradSite(name, format string) c30Site {
-	return c30Site{Name: name, Src: func(q, raw string) string {
-		g := dq(fmt.Sprintf(format, raw))
-		return "style.fill: " + g + "\na: lbl {style.fill: " + g + "; style.stroke: " + g + "; style.font-color: " + g + "}\na -> b: lbl {style.stroke: " + g + "; style.font-color: " + g + "}\n"
-	}}
-}
-
-var c30Sites = []c30Site{
-	{Name: "shape-label", Src: func(q, _ string) string { return "a: " + q + "\nc: " + q + " {b}\n" }},
-	{Name: "shape-label-border-mono", Src: func(q, _ string) string {
-		return "a: {label: " + q + "; label.near: border-top-center; style.font: mono; style.underline: true}\n"
-	}},
-	{Name: "connection-label", Src: func(q, _ string) string { return "a -> b: " + q + "\n" }},
-	{Name: "arrowhead-label", Src: func(q, _ string) string {
-		return "a <-> b: {source-arrowhead: " + q + "; target-arrowhead.label: " + q + "}\n"
-	}},
-	{Name: "tooltip", Src: func(q, _ string) string { return "a.tooltip: " + q + "\n" }},
-	{Name: "link", Src: func(q, _ string) string { return "a.link: " + q + "\n" }},
-	{Name: "link-url", Src: func(q, raw string) string { return "a.link: " + dq("https://example.com/"+raw) + "\n" }},
-	{Name: "tooltip+link", Src: func(q, _ string) string { return "a: {tooltip: " + q + "; link: " + q + "; shape: circle}\n" }},
-	{Name: "connection-link", Src: func(q, _ string) string { return "a -> b: lbl {link: " + q + "}\n" }},
-	{Name: "object-id", Src: func(q, _ string) string { return q + ".c -> b\n" + q + ".c.tooltip: t\n" }},
-	{Name: "class-name", Src: func(q, _ string) string {
-		return "classes: {" + q + ": {style.stroke-width: 2}}\na.class: " + q + "\na -> b: {class: " + q + "}\n"
-	}},
-	{Name: "class-name-undeclared", Src: func(q, _ string) string { return "a.class: " + q + "\na -> b: {class: " + q + "}\n" }},
-	{Name: "uml-class-member", Src: func(q, raw string) string {
-		return "a: {shape: class\n  " + q + ": " + q + "\n  " + dq(raw+"(x)") + ": " + q + "\n}\n"
-	}},
-	{Name: "uml-class-header", Src: func(q, _ string) string { return "a: " + q + " {shape: class; f: int}\n" }},
-	{Name: "sql-column", Src: func(q, _ string) string {
-		return "a: {shape: sql_table\n  " + q + ": " + q + " {constraint: " + q + "}\n}\n"
-	}},
-	{Name: "sql-header", Src: func(q, _ string) string { return "a: " + q + " {shape: sql_table; id: int}\n" }},
-	{Name: "color-value", Src: func(q, _ string) string {
-		return "a: lbl {style.fill: " + q + "}\n"
-	}},
-	{Name: "color-value-stroke-font", Src: func(q, _ string) string {
-		return "a -> b: lbl {style.stroke: " + q + "; style.font-color: " + q + "}\n"
-	}},
-	gradSite("gradient-stop-color", "linear-gradient(%s, blue)"),
-	gradSite("gradient-stop-position", "linear-gradient(red %s, blue)"),
-	gradSite("gradient-direction-to", "linear-gradient(to %s, red, blue)"),
-	gradSite("gradient-direction-deg", "linear-gradient(%sdeg, red, blue)"),
-	gradSite("gradient-radial-stop-position", "radial-gradient(circle, red %s, blue)"),
-	{Name: "near", Src: func(q, _ string) string { return "a.near: " + q + "\nb\n" }},
-	{Name: "icon", Src: func(q, _ string) string {
-		return "a.icon: " + q + "\nb: {shape: image; icon: " + q + "}\na -> b: {icon: " + q + "}\n"
-	}},
-	{Name: "icon-url", Src: func(_, raw string) string {
-		i := dq("https://example.com/" + raw)
-		return "a.icon: " + i + "\nb: {shape: image; icon: " + i + "}\na -> b: {icon: " + i + "}\n"
-	}},
-	{Name: "code-block", Src: func(_, raw string) string {
-		return "a: |||go\n" + raw + "\n|||\na -> b: |||go\n" + raw + "\n|||\n"
-	}},
-	{Name: "board-name", Multi: true, Src: func(q, _ string) string {
-		return "a.link: layers." + q + "\nlayers: {" + q + ": {b}}\n"
-	}},
-	{Name: "legend", Src: func(q, _ string) string {
-		return "vars: {d2-legend: " + q + " {\n  a: " + q + " {shape: circle}\n  a -> b: " + q + "\n}}\nx -> y\n"
-	}},
-	{Name: "theme-override", Src: func(q, _ string) string {
-		return "vars: {d2-config: {theme-overrides: {B1: " + q + "; N7: " + q + "}; dark-theme-overrides: {B2: " + q + "}}}\na -> b\n"
-	}},
-	{Name: "markdown-label", WFOnly: true, Src: func(_, raw string) string {
-		return "a: |||md\n" + raw + "\n|||\na -> b: |||md\n" + raw + "\n|||\n"
-	}},
-	{Name: "tooltip-positioned", WFOnly: true, Src: func(q, _ string) string {
-		return "a: {tooltip: " + q + "; tooltip.near: top-center}\n"
-	}},
-}
-
-func c30SiteByName(n string) *c30Site {
-	for i := range c30Sites {
-		if c30Sites[i].Name == n {
-			return &c30Sites[i]
-		}
-	}
-	return nil
-}
-
 // ---- render options --------------------------------------------------------------------------------
 
 var c30OptNames = []string{"sketch", "dark", "terminal", "appendix", "pad", "scale", "center", "noxml", "salt"}
 
-// option sets as sorted comma-joined names; "" is the default rendering.
+// option sets as comma-joined names in c30OptNames order; "" is the default rendering.
 func c30Combos(group string) []string {
 	switch group {
 	case "base":
@@ -188,47 +48,82 @@ func hasOpt(combo, o string) bool {
 	return false
 }
 
-var c30Renders, c30Compiles atomic.Int64
-
-type c30Compiled struct {
-	d   *d2target.Diagram
-	ro  d2svg.RenderOpts
-	err error
+// variant = the options that need their own compile+layout run (font family / theme special rules).
+func c30Variant(combo string) string {
+	v := ""
+	if hasOpt(combo, "sketch") {
+		v = "sketch"
+	}
+	if hasOpt(combo, "terminal") {
+		if v != "" {
+			v += "+"
+		}
+		v += "terminal"
+	}
+	if v == "" {
+		v = "default"
+	}
+	return v
 }
 
-// c30Render renders src under every combo; compile+layout happen once per (sketch, terminal) pair.
-// It returns per combo the list of documents (one per board) or an error.
+var c30Variants = []string{"default", "sketch", "terminal", "sketch+terminal"}
+
+func c30UnitCombos(group, variant string) []string {
+	var out []string
+	for _, c := range c30Combos(group) {
+		if c30Variant(c) == variant {
+			out = append(out, c)
+		}
+	}
+	return out
+}
+
+var c30Renders, c30Compiles, c30RenderErrs atomic.Int64
+
 type c30Out struct {
 	docs [][]byte
 	err  error
 }
 
+// c30RenderAll renders src under every combo (all of one variant): one compile+layout, then one
+// d2svg.Render (+ appendix.Append) per combo and board.
 func c30RenderAll(src string, multi bool, combos []string) (compileErr error, outs []c30Out) {
-	cache := map[[2]bool]*c30Compiled{}
+	var ro0 d2svg.RenderOpts
+	if hasOpt(combos[0], "sketch") {
+		ro0.Sketch = ptr(true)
+	}
+	if hasOpt(combos[0], "terminal") {
+		ro0.ThemeID = ptr(int64(300))
+	}
+	c30Compiles.Add(1)
+	d, _, err := compileLayout(src, "dagre", &ro0)
+	if err != nil {
+		return err, nil
+	}
 	outs = make([]c30Out, len(combos))
+	var boards []*d2target.Diagram
+	if multi {
+		var walk func(d *d2target.Diagram)
+		walk = func(d *d2target.Diagram) {
+			if !d.IsFolderOnly {
+				boards = append(boards, d)
+			}
+			for _, l := range d.Layers {
+				walk(l)
+			}
+			for _, l := range d.Scenarios {
+				walk(l)
+			}
+			for _, l := range d.Steps {
+				walk(l)
+			}
+		}
+		walk(d)
+	} else {
+		boards = []*d2target.Diagram{d}
+	}
 	for i, combo := range combos {
-		key := [2]bool{hasOpt(combo, "sketch"), hasOpt(combo, "terminal")}
-		c := cache[key]
-		if c == nil {
-			c = &c30Compiled{}
-			if key[0] {
-				c.ro.Sketch = ptr(true)
-			}
-			if key[1] {
-				c.ro.ThemeID = ptr(int64(300))
-			}
-			c30Compiles.Add(1)
-			c.d, _, c.err = compileLayout(src, "dagre", &c.ro)
-			cache[key] = c
-		}
-		if c.err != nil {
-			if combo == "" {
-				return c.err, nil
-			}
-			outs[i].err = c.err
-			continue
-		}
-		ro := c.ro
+		ro := ro0
 		if hasOpt(combo, "dark") {
 			ro.DarkThemeID = ptr(int64(200))
 		}
@@ -247,32 +142,12 @@ func c30RenderAll(src string, multi bool, combos []string) (compileErr error, ou
 		if hasOpt(combo, "salt") {
 			ro.Salt = ptr("s\"<&'>")
 		}
-		var boards []*d2target.Diagram
-		if multi {
-			var walk func(d *d2target.Diagram)
-			walk = func(d *d2target.Diagram) {
-				if !d.IsFolderOnly {
-					boards = append(boards, d)
-				}
-				for _, l := range d.Layers {
-					walk(l)
-				}
-				for _, l := range d.Scenarios {
-					walk(l)
-				}
-				for _, l := range d.Steps {
-					walk(l)
-				}
-			}
-			walk(c.d)
-		} else {
-			boards = []*d2target.Diagram{c.d}
-		}
 		for _, b := range boards {
 			c30Renders.Add(1)
 			r := ro
 			svg, err := d2svg.Render(b, &r)
 			if err != nil {
+				c30RenderErrs.Add(1)
 				outs[i].err = err
 				break
 			}
@@ -285,13 +160,7 @@ func c30RenderAll(src string, multi bool, combos []string) (compileErr error, ou
 	return nil, outs
 }
 
-// ---- oracle ----------------------------------------------------------------------------------------
-
-type c30In struct {
-	Site     string   `json:"site"`
-	Opts     string   `json:"opts"`
-	Payloads []string `json:"payloads"`
-}
+// ---- judging one document -----------------------------------------------------------------------------
 
 type c30Vocab struct {
 	elems, attrs map[string]bool
@@ -299,7 +168,8 @@ type c30Vocab struct {
 
 var c30VocabCache = map[string]*c30Vocab{}
 
-// vocabulary of the renderer for (site, combo): names seen when the strings are harmless.
+// c30Baseline: the renderer's vocabulary for (site, combo) — element names and element@attribute pairs seen
+// when the template is rendered with harmless strings. Non-empty error = the harmless render is malformed.
 func c30Baseline(site *c30Site, combos []string) (map[string]*c30Vocab, string) {
 	res := map[string]*c30Vocab{}
 	var missing []string
@@ -316,11 +186,14 @@ func c30Baseline(site *c30Site, combos []string) (map[string]*c30Vocab, string) 
 	for _, c := range missing {
 		res[c] = &c30Vocab{elems: map[string]bool{}, attrs: map[string]bool{}}
 	}
-	for _, b := range c30Benign {
+	benign := site.Benign
+	if benign == nil {
+		benign = c30Benign
+	}
+	for _, b := range benign {
 		cerr, outs := c30RenderAll(site.Src(dq(b), b), site.Multi, missing)
 		if cerr != nil {
-			// a site whose benign form does not compile has no vocabulary: strings never reach the renderer
-			// unless the payload itself makes it compile; then everything it adds is judged against the empty set
+			// a template that does not compile with a harmless string contributes no vocabulary
 			continue
 		}
 		for i, c := range missing {
@@ -330,7 +203,7 @@ func c30Baseline(site *c30Site, combos []string) (map[string]*c30Vocab, string) 
 			for _, doc := range outs[i].docs {
 				x := scanXML(doc, "", false)
 				if x.Err != "" {
-					return nil, fmt.Sprintf("benign string %q, options [%s]: %s", b, c, x.Err)
+					return nil, fmt.Sprintf("harmless string %q, options [%s]: %s", b, c, x.Err)
 				}
 				for k := range x.Elems {
 					res[c].elems[k] = true
@@ -347,15 +220,63 @@ func c30Baseline(site *c30Site, combos []string) (map[string]*c30Vocab, string) 
 	return res, ""
 }
 
-func optSuffix(combo string) string {
-	if combo == "" {
-		return ""
+// c30Judge returns the failure mechanism ("" = fine) and a description.
+func c30Judge(site *c30Site, v *c30Vocab, doc []byte) (kind, detail string) {
+	x := scanXML(doc, c30Marker, false)
+	if x.Err != "" {
+		if x.ErrKind == "illegal-character" || x.ErrKind == "invalid-utf8" {
+			return "illegal-xml-character", x.Err
+		}
+		return "xml-malformed", x.ErrKind + ": " + x.Err
 	}
-	return ":with-" + strings.ReplaceAll(combo, ",", "+")
+	if site.WFOnly {
+		return "", ""
+	}
+	if len(x.NameHits) > 0 {
+		return "markup-injected", "user text became " + strings.Join(x.NameHits, "; ")
+	}
+	var extra []string
+	for _, k := range sortedKeys(x.Elems) {
+		if !v.elems[k] {
+			extra = append(extra, "<"+k+">")
+		}
+	}
+	for _, k := range sortedKeys(x.Attrs) {
+		if !v.attrs[k] {
+			extra = append(extra, k)
+		}
+	}
+	if len(extra) > 0 {
+		return "markup-injected", "elements / element@attribute pairs that never occur when the string is harmless: " + strings.Join(extra, " ")
+	}
+	return "", ""
 }
 
-func c30Oracle(in string) eng.Res {
-	var q c30In
+// ---- oracles -----------------------------------------------------------------------------------------
+
+type c30UnitIn struct {
+	Site     string   `json:"site"`
+	Group    string   `json:"group"`
+	Variant  string   `json:"variant"`
+	Payloads []string `json:"payloads"`
+}
+
+type c30OneIn struct {
+	Site    string `json:"site"`
+	Payload string `json:"payload"`
+	Opts    string `json:"opts"`
+}
+
+type c30Found struct {
+	payload, combo, kind string
+}
+
+// failures found by the last "unit" evaluation; Run feeds each distinct one to the "one" oracle so that every
+// mechanism gets its own class, count and replayable witness (a unit can hold several).
+var c30Pending []c30Found
+
+func c30Unit(in string) eng.Res {
+	var q c30UnitIn
 	if err := json.Unmarshal([]byte(in), &q); err != nil {
 		panic("harness: bad C30 input: " + err.Error())
 	}
@@ -363,65 +284,99 @@ func c30Oracle(in string) eng.Res {
 	if site == nil {
 		panic("harness: unknown site " + q.Site)
 	}
-	combos := c30Combos(q.Opts)
-	var vocab map[string]*c30Vocab
-	if !site.WFOnly {
-		v, berr := c30Baseline(site, combos)
-		if berr != "" {
-			return eng.Bad("xml-malformed-without-payload:"+site.Name, berr)
-		}
-		vocab = v
+	c30Pending = nil
+	combos := c30UnitCombos(q.Group, q.Variant)
+	vocab, berr := c30Baseline(site, combos)
+	if berr != "" {
+		return eng.Bad("xml-malformed-with-harmless-strings:"+site.Name, berr)
 	}
 	var outcome []string
 	rendered := 0
 	for _, p := range q.Payloads {
-		src := site.Src(dq(p), p)
-		cerr, outs := c30RenderAll(src, site.Multi, combos)
+		cerr, outs := c30RenderAll(site.Src(dq(p), p), site.Multi, combos)
 		if cerr != nil {
 			outcome = append(outcome, "E:"+strings.ReplaceAll(u.ErrClass(cerr), p, "$P"))
 			continue
 		}
+		seen := map[string]bool{} // kinds that already failed for this payload with fewer options
+		res := "ok"
 		for i, combo := range combos {
-			o := outs[i]
-			if o.err != nil {
-				outcome = append(outcome, "RE:"+strings.ReplaceAll(o.err.Error(), p, "$P"))
+			if outs[i].err != nil {
+				res = "render-error"
 				continue
 			}
-			for _, doc := range o.docs {
+			for _, doc := range outs[i].docs {
 				rendered++
-				x := scanXML(doc, c30Marker, false)
-				if x.Err != "" {
-					return eng.Bad("xml-malformed:"+x.ErrKind+":"+site.Name+optSuffix(combo),
-						fmt.Sprintf("payload %q options [%s]\nd2: %s\n%s", p, combo, src, x.Err))
-				}
-				if site.WFOnly {
+				kind, _ := c30Judge(site, vocab[combo], doc)
+				if kind == "" {
 					continue
 				}
-				if len(x.NameHits) > 0 {
-					return eng.Bad("markup-injected:name-from-user-string:"+site.Name+optSuffix(combo),
-						fmt.Sprintf("payload %q options [%s]\nd2: %s\nuser text became %s", p, combo, src, strings.Join(x.NameHits, "; ")))
+				res = "FAIL"
+				if seen[kind] {
+					continue
 				}
-				var extra []string
-				for _, k := range sortedKeys(x.Elems) {
-					if !vocab[combo].elems[k] {
-						extra = append(extra, "<"+k+">")
-					}
+				if combo == combos[0] {
+					seen[kind] = true // every further option set of this unit includes combos[0]'s options
 				}
-				for _, k := range sortedKeys(x.Attrs) {
-					if !vocab[combo].attrs[k] {
-						extra = append(extra, k)
-					}
-				}
-				if len(extra) > 0 {
-					return eng.Bad("markup-injected:element-or-attribute-not-in-renderer-vocabulary:"+site.Name+optSuffix(combo),
-						fmt.Sprintf("payload %q options [%s]\nd2: %s\nnot present when the string is harmless: %s", p, combo, src, strings.Join(extra, " ")))
-				}
+				c30Pending = append(c30Pending, c30Found{p, combo, kind})
 			}
 		}
-		outcome = append(outcome, "ok")
+		outcome = append(outcome, res)
 	}
 	sort.Strings(outcome)
-	return eng.OK(site.Name+"/"+strings.Join(outcome, "|"), rendered > 0)
+	return eng.OK(site.Name+"/"+q.Variant+"/"+strings.Join(outcome, "|"), rendered > 0)
+}
+
+// c30One judges one (site, payload, option set) and names the smallest subset of the option set under which
+// the same mechanism already fails.
+func c30One(in string) eng.Res {
+	var q c30OneIn
+	if err := json.Unmarshal([]byte(in), &q); err != nil {
+		panic("harness: bad C30 input: " + err.Error())
+	}
+	site := c30SiteByName(q.Site)
+	if site == nil {
+		panic("harness: unknown site " + q.Site)
+	}
+	src := site.Src(dq(q.Payload), q.Payload)
+	try := func(combo string) (string, string) {
+		vocab, berr := c30Baseline(site, []string{combo})
+		if berr != "" {
+			return "xml-malformed-with-harmless-strings", berr
+		}
+		cerr, outs := c30RenderAll(src, site.Multi, []string{combo})
+		if cerr != nil || outs[0].err != nil {
+			return "", ""
+		}
+		for _, doc := range outs[0].docs {
+			if k, d := c30Judge(site, vocab[combo], doc); k != "" {
+				return k, d
+			}
+		}
+		return "", ""
+	}
+	kind, detail := try(q.Opts)
+	if kind == "" {
+		return eng.OK("ok", true)
+	}
+	min := q.Opts
+	if q.Opts != "" {
+		subs := []string{""}
+		if parts := strings.Split(q.Opts, ","); len(parts) > 1 {
+			subs = append(subs, parts...)
+		}
+		for _, s := range subs {
+			if k, d := try(s); k == kind {
+				min, detail = s, d
+				break
+			}
+		}
+	}
+	suffix := ""
+	if min != "" {
+		suffix = ":only-with-" + strings.ReplaceAll(min, ",", "+")
+	}
+	return eng.Bad(kind+":"+site.Name+suffix, fmt.Sprintf("string %q, render options [%s]\nd2 source:\n%s\n%s", q.Payload, min, src, detail))
 }
 
 func c30Chunks(ps []string, n int) [][]string {
@@ -439,36 +394,67 @@ func c30Chunks(ps []string, n int) [][]string {
 
 func init() {
 	eng.Register(&eng.Check{
-		ID: "C30", Level: "exploration", HangBound: 300 * time.Second,
+		ID: "C30", Level: "exploration", HangBound: 900 * time.Second,
 		QuickBudget: 110 * time.Second, ThoroughBudget: 24 * time.Minute,
-		Rule: "payload string (XML metacharacters, quote break-outs, entity/CDATA/comment/PI openers, every C0 control character, U+007F/0085/2028/FFFE/FFFF, lone surrogate and invalid UTF-8 bytes; each with a unique marker) x injection site (D2 template placing the string as label, connection/arrowhead label, tooltip, link, object id, class name, UML/SQL member, colour and gradient parts, near, icon, code block, board name, legend, theme override, markdown) x render-option set (default, every single option, every pair of {sketch, dark theme, terminal theme, appendix, pad, scale, center, no-xml-tag, salt}); one evaluation = one site x <=4 payloads x all option sets of the phase; compiled through d2lib.Compile with dagre and rendered with d2svg.Render (+appendix.Append); non-trivial = at least one SVG was produced and scanned",
+		Rule: "string (XML metacharacters, quote break-outs, entity/CDATA/comment/PI openers, C0 control characters, U+007F/0085/2028/FFFE/FFFF/FEFF, lone surrogate and invalid UTF-8 bytes; each carrying a unique marker) x injection site (a D2 template placing the string as shape/connection/arrowhead label, tooltip, link, object id, class name, UML/SQL member, colour and gradient part, near, icon, code block, board name, legend, theme override, markdown) x render-option set (default; every single option and every pair of {sketch, dark theme, terminal theme, appendix, pad, scale, center, no-xml-tag, salt}); compiled+laid out through d2lib.Compile (dagre), rendered by d2svg.Render (+appendix.Append), every SVG scanned by the strict XML oracle and compared with the vocabulary of the same template rendered with harmless strings. Oracle 'unit' = one site x one compile variant x a chunk of strings x all option sets of the phase; every failure it finds is re-judged alone by oracle 'one' (site, string, option set) which names the mechanism and the smallest failing option subset. non-trivial = at least one SVG was produced and scanned",
 		Assumptions: []string{
-			"well-formedness = encoding/xml strict tokenizer plus nesting, single root, unique attributes, no '<' in attribute values, declared prefixes; DTD validity and SVG schema conformance are not checked",
-			"injection = the marker shows up in an element/attribute/PI name, or an element name or element@attribute pair occurs that does not occur when the same template is rendered with harmless strings under the same options; CSS-level injection inside <style> and URL schemes (javascript:) are not judged, the statement speaks of elements and attributes only",
-			"markdown label and positioned (markdown) tooltip sites are checked for well-formedness only, as the statement excludes markdown from the injection clause",
+			"well-formedness = encoding/xml strict tokenizer plus tag nesting, single root, unique attributes, no '<' in attribute values, declared namespace prefixes; DTD validity and SVG schema conformance are not checked",
+			"injection = the marker shows up in an element/attribute/PI name, or an element name or element@attribute pair occurs that never occurs when the same template is rendered with harmless strings under the same options; CSS-level injection inside <style> and URL schemes (javascript:) are not judged — the statement speaks of elements and attributes only",
+			"markdown label and positioned (markdown-rendered) tooltip sites are checked for well-formedness only, as the statement excludes markdown from the injection clause",
 			"strings reach D2 as double-quoted strings (escapes for quote, backslash, newline) or inside ||| block strings for code/markdown; what the parser rejects or alters never reaches the renderer and is counted as a compile-error outcome",
+			"a d2svg.Render error (no SVG produced) is counted (render_errors), not judged",
 			"LaTeX labels, remote/bundled images and the animated multi-board wrapper (d2animate) are outside the space",
 		},
-		Oracles: map[string]eng.Oracle{"render": c30Oracle},
+		Oracles: map[string]eng.Oracle{"unit": c30Unit, "one": c30One},
 		Run: func(w *eng.W) {
-			all := append(append([]string{}, c30Meta...), c30Control()...)
+			runtime.GOMAXPROCS(2)
+			all := append(append([]string{}, c30Meta...), c30Control(w.Thorough())...)
 			emit := func(group string, ps []string) {
 				for _, s := range c30Sites {
-					for _, ch := range c30Chunks(ps, 4) {
-						b, _ := json.Marshal(c30In{Site: s.Name, Opts: group, Payloads: ch})
-						w.Eval("render", string(b))
-					}
+					s := s
+					w.Phase(group+"-options:"+s.Name, func() {
+						for _, variant := range c30Variants {
+							combos := c30UnitCombos(group, variant)
+							if len(combos) == 0 {
+								continue
+							}
+							per := 160 / len(combos) // <= ~160 renders per evaluation
+							if per < 4 {
+								per = 4
+							}
+							for _, ch := range c30Chunks(ps, per) {
+								if !w.Mine() {
+									continue
+								}
+								b, _ := json.Marshal(c30UnitIn{Site: s.Name, Group: group, Variant: variant, Payloads: ch})
+								w.EvalMine("unit", string(b))
+								done := map[string]bool{}
+								for _, f := range c30Pending {
+									if k := f.kind + "\x00" + f.combo; done[k] {
+										continue
+									} else {
+										done[k] = true
+									}
+									b, _ := json.Marshal(c30OneIn{Site: s.Name, Payload: f.payload, Opts: f.combo})
+									w.EvalMine("one", string(b))
+								}
+								c30Pending = nil
+							}
+						}
+					})
 				}
 			}
-			w.Phase("all-payloads x sites x base-options", func() { emit("base", all) })
+			emit("base", all)
 			if w.Thorough() {
-				w.Phase("all-payloads x sites x option-pairs", func() { emit("pairs", all) })
+				emit("pairs", all)
 			} else {
-				w.Phase("core-payloads x sites x option-pairs", func() { emit("pairs", c30Core) })
+				emit("pairs", c30Core)
 			}
 			w.Count("svg_renders", c30Renders.Load())
 			w.Count("compile_layout_runs", c30Compiles.Load())
-			w.Note("payloads", fmt.Sprint(len(all)))
+			w.Count("render_errors", c30RenderErrs.Load())
+			w.Count("worker_cpu_ms", int64(cpuNow()/time.Millisecond))
+			w.Note("strings", fmt.Sprint(len(all)))
 			w.Note("sites", fmt.Sprint(len(c30Sites)))
 		},
 	})
